@@ -497,7 +497,40 @@ def rule_empty_interface(run):
     run.end()
 
 
-RULES = [rule_interface, rule_port_map, rule_templates, rule_library_order, rule_defaults, rule_shared, rule_registration, rule_idset, rule_usage, rule_inherit_copy, rule_names, rule_views, rule_port_widths, rule_empty_interface]
+def rule_unit_names(run):
+    run.begin(
+        "C12.j",
+        "design units are identified by their names: the architecture header names the entity by the very name the entity "
+        "declaration uses (Entity.name(), not a name allocated in the architecture's scope, which gets a suffix when a port "
+        "or signal is called like the entity), and a library never contains two different entities with one "
+        "(case-insensitive) name - instances of the second would bind to the first",
+        floor=2,
+    )
+    vh = run.idx.mod("cohdl/_compiler/backend/vhdl/_vhdl_repr.py")
+    en = vh.func("Architecture.entity_name")
+    rets = [r for r in walk_local(en.node) if isinstance(r, ast.Return) and r.value is not None]
+    decl = vh.func("Entity._entity_declaration")
+    uses_name = "self._name" in src(decl.node)
+    ok = len(rets) == 1 and uses_name and src(rets[0].value) in ("self._entity.name()", "self._entity._name")
+    run.ob(ok, "vhdl.Architecture.entity_name", file=vh.rel, line=en.node.lineno, detail="same-name-as-declaration", expected="self._entity.name()  (the entity declaration prints self._name)",
+           found=src(rets[0].value) if rets else "?")
+    lib = vh.func("Library.from_top_entity")
+    # a duplicate test over the collected entities: an assert / raise reached from a membership test on lower-cased names
+    dup = False
+    for a in walk_local(lib.node):
+        if isinstance(a, (ast.Assert, ast.If)):
+            for c in ast.walk(a.test):
+                if isinstance(c, ast.Compare) and any(isinstance(o, (ast.In, ast.NotIn)) for o in c.ops):
+                    nm = dotted(c.left)
+                    defs = [x for x in walk_local(lib.node) if isinstance(x, ast.Assign) and dotted(x.targets[0]) == nm]
+                    if defs and ".name()" in src(defs[0].value) and ".lower()" in src(defs[0].value):
+                        dup = True
+    run.ob(dup, "vhdl.Library.from_top_entity", file=vh.rel, line=lib.node.lineno, detail="unique-unit-names", expected="assert <entity.name().lower()> not in <names seen>",
+           found="ok" if dup else "no test: two entity classes with one name are both emitted as `entity <name>`")
+    run.end()
+
+
+RULES = [rule_interface, rule_port_map, rule_templates, rule_library_order, rule_defaults, rule_shared, rule_registration, rule_idset, rule_usage, rule_inherit_copy, rule_names, rule_views, rule_port_widths, rule_empty_interface, rule_unit_names]
 LEVEL = "other"
 EXPLANATION = (
     "Structural half of 'instantiating equals inlining', for all hierarchies: the emitted interface (declared ports, "
